@@ -67,7 +67,7 @@ var LeafKinds = []string{
 
 var WrapKinds = []string{
 	"wrap", "wrapf", "wrapf0", "withmsg", "withmsgf", "withmsgf0", "safedetailsnofmt", "stack", "stackdeep", "stackn", "hint", "hintf0", "detailf0", "hintf", "detail", "detailf", "safedetails", "stwrap",
-	"telemetry", "domain", "issuelink", "tags", "assertion", "mark", "secondary", "combine", "wrapferr", "wrapfgosyntax",
+	"telemetry", "domain", "issuelink", "tags", "assertion", "mark", "secondary", "combine", "wrapferr", "wrapferrprec", "wrapfgosyntax",
 	"handled", "handledmsg", "handledmsgf", "handledmsgf0", "handledsafemsg", "handleddomain", "handleddomainmsg", "domhandled", "handleassert", "assertwrap", "assertwraperr",
 	"newfw", "newfwsuffix", "httpcode", "grpccode",
 	"goerrorf", "goerrorfsuffix", "goerrorfecho", "pkgmsgecho", "wrapecho", "ospath", "oslink", "ossyscall", "netop", "dnswrap",
@@ -83,7 +83,7 @@ var BarrierKinds = []string{"handled", "handledmsg", "handledmsgf", "handledmsgf
 
 // SecondaryKinds keep their X sub-errors as secondary errors (hidden
 // from cause analysis, shown in %+v).
-var SecondaryKinds = []string{"secondary", "combine", "wrapferr", "newfwerr", "assertwraperr"}
+var SecondaryKinds = []string{"secondary", "combine", "wrapferr", "wrapferrprec", "newfwerr", "assertwraperr"}
 
 func IsSecondaryKind(k string) bool { return in(k, SecondaryKinds) }
 
@@ -369,7 +369,7 @@ func (g *Cfg) WrapOf(t *rapid.T, k string, c *Spec) *Spec {
 		}
 	case "mark", "secondary", "combine":
 		s.X = []*Spec{nil}
-	case "wrapferr", "assertwraperr":
+	case "wrapferr", "wrapferrprec", "assertwraperr":
 		// Wrapf / NewAssertionErrorWithWrappedErrf with an error-typed
 		// argument (captured as secondary error).
 		s.S = []string{str(t, "lit")}
